@@ -155,6 +155,8 @@ pub struct PeerObs {
     pub headers_from_e: u64,
     pub probe_total: u64,
     pub probe_streams: Vec<(u32, bool)>,
+    /// copy of the peer's per-stream view (only kept when `Peer::snapshot_streams`)
+    pub streams: BTreeMap<u32, PStream>,
 }
 
 pub struct Peer {
@@ -179,6 +181,7 @@ pub struct Peer {
     pub grant: Grant,
     pub auto_ack_settings: bool,
     pub auto_ack_ping: bool,
+    pub snapshot_streams: bool,
     pub auto_respond: bool,
     pub pause: u32,
     pub barrier: Option<Gate>,
@@ -276,6 +279,7 @@ impl Peer {
             grant,
             auto_ack_settings: true,
             auto_ack_ping: true,
+            snapshot_streams: false,
             auto_respond: true,
             pause: 0,
             barrier: None,
@@ -1005,9 +1009,15 @@ impl Future for PeerFuture {
             }
             // the peer lives until E closes the transport (or the peer itself is done and E is gone)
             if p.eof && (p.out.is_empty() || p.dead) && script_done {
+                if p.snapshot_streams {
+                    p.obs.lock().unwrap().streams = p.streams.clone();
+                }
                 return Poll::Ready(());
             }
             if !progressed || spins > 64 {
+                if p.snapshot_streams {
+                    p.obs.lock().unwrap().streams = p.streams.clone();
+                }
                 if progressed {
                     cx.waker().wake_by_ref();
                 }
